@@ -238,6 +238,19 @@ Proof.
   apply ok_rollback_body. unfold ka_ok. rewrite kv_agg_cancel. apply ok_cancel. exact H.
 Qed.
 
+Lemma kv_rollback_body_l lost s : kv (rollback_body_l lost s) = kv (rollback_body s).
+Proof.
+  unfold rollback_body_l, rollback_body, ka_close. destruct s as [a1 a2 a3 a4 a5 ag a7 a8 a9 a10 a11 a12 a13 a14]. unfold kv. simpl.
+  destruct (a13 && a7); simpl; [|reflexivity]. destruct (a5 =? 0)%Z; simpl; [destruct a14; reflexivity|].
+  destruct (filter (fun k => memk k lost) a2); destruct a14; reflexivity.
+Qed.
+
+Lemma ka_ok_rollback_l lost s : ka_ok s -> pending s = false -> ka_ok (rollback_l lost s).
+Proof.
+  intros H Hp. unfold rollback_l. destruct (valid s); simpl; auto. rewrite Hp.
+  unfold ka_ok. rewrite kv_rollback_body_l. apply ok_rollback_body. unfold ka_ok. rewrite kv_agg_cancel. apply ok_cancel. exact H.
+Qed.
+
 Lemma kv_commit_body0 o s :
   exists co, kv (commit_body0 o s) = (ka s, primary s, false, pess s, co, option_map aflags (agg s)) /\ (committer s = true -> co = true).
 Proof.
@@ -443,6 +456,7 @@ Proof.
   - unfold ka_ok. rewrite kv_agg_done. apply ok_done. exact H.
   - apply ka_ok_commit; auto.
   - apply ka_ok_rollback; auto.
+  - apply ka_ok_rollback_l; auto.
   - unfold ka_ok. rewrite kv_run_nth. exact H.
   - unfold ka_ok. rewrite kv_run_some. exact H.
 Qed.
